@@ -313,7 +313,8 @@ def obs_serial(c: Ctx, enc, *, props, quick=True, salt=0, tmpdir=None):
             if not derived and mapper_needed:
                 kw["mapper"] = ser_mapper if salt % 2 else (lambda node, data: ser_mapper(node, dict(data)))
             load_kw = {}
-            need_load_mapper = mapper_needed or any(st["did"][i] != fl.model_default_did(st["dat"][i]) for i in range(st["n"]))
+            need_load_mapper = mapper_needed or fl.calc_data_id() is not None or \
+                any(st["did"][i] != fl.model_default_did(st["dat"][i]) for i in range(st["n"]))
             if not derived and need_load_mapper:
                 load_kw["mapper"] = deser_mapper
             cls = tree_class(fl, derived)
